@@ -289,7 +289,26 @@ def gen_series(rng, tier):
         g = rng.choice(['sum', 'mean', 'count'])
         ss, rel = rand_operands(rng, rng.choice([1, 2, 3, 4]), MEANV if g == 'mean' else VALS)
         how, m = rng.choice(['oj', 'oj', 'oj', 'ij']), rng.choice(['N', 'N', 'ffill'])
-        yield dict(tag='agg/%s/%d/%s/%s/%s' % (g, len(ss), rel, how, m), lines=['(ops agg %s %s %s %s)' % (g, enc_in(ss), how, m)])
+        sc = ''
+        r = rng.random()
+        if r < 0.35:
+            # scalar operands: a number counts at every timestamp, a NaN scalar never (r4: the model used to drop them)
+            ss, sc = with_scalars(rng, ss, g), '+scalar'
+        elif r < 0.4:
+            ss, sc = [agg_scalar(rng, g) for _ in ss], '+scalars-only'
+        yield dict(tag='agg/%s/%d/%s/%s/%s%s' % (g, len(ss), rel, how, m, sc), lines=['(ops agg %s %s %s %s)' % (g, enc_in(ss), how, m)])
+
+
+def agg_scalar(rng, g):
+    return rng.choice((MEANV if g == 'mean' else VALS) + [nan, nan, 3])
+
+
+def with_scalars(rng, xs, g):
+    xs = list(xs)
+    for _ in range(rng.choice([1, 1, 2])):
+        if len(xs) < 4:
+            xs.insert(rng.randrange(len(xs) + 1), agg_scalar(rng, g))
+    return xs
 
 
 # ------------------------------------------------------------------ implementation runner
@@ -495,10 +514,11 @@ def laws(rng, tier, ctx):
     # aggregates
     for _ in range(n // 2):
         g = rng.choice(['sum', 'mean', 'count'])
-        ss, rel = rand_operands(rng, rng.choice([2, 3, 4]), MEANV if g == 'mean' else VALS)
-        case = dict(tag='law-agg', lines=['(ops agg %s %s oj N)' % (g, enc_in(ss))])
+        ss, rel = rand_operands(rng, rng.choice([2, 3]), MEANV if g == 'mean' else VALS)
+        xs = with_scalars(rng, ss, g) if rng.random() < 0.3 else ss
+        case = dict(tag='law-agg', lines=['(ops agg %s %s oj N)' % (g, enc_in(xs))])
         try:
-            res = _fn('df_' + g)(ss)
+            res = _fn('df_' + g)(xs)
         except Exception as e:
             yield Finding('violation', case, 'df_%s raised %s: %s' % (g, type(e).__name__, str(e)[:100]))
             continue
@@ -506,7 +526,8 @@ def laws(rng, tier, ctx):
         idx = A.expected_index(ss, 'oj')
         exp = []
         for t in idx:
-            vs = [float(s[t]) for s in ss if t in s.index and not _isnan(float(s[t]))]
+            vs = [float(s[t]) for s in xs if isinstance(s, pd.Series) and t in s.index and not _isnan(float(s[t]))]
+            vs += [float(q) for q in xs if not isinstance(q, pd.Series) and not _isnan(float(q))]
             exp.append(float(len(vs)) if g == 'count' else nan if not vs else sum(vs) if g == 'sum' else sum(vs) / len(vs))
         if not (isinstance(res, pd.Series) and list(res.index) == list(idx) and A.same_vals(list(map(float, res.values)), exp)):
             yield Finding('violation', case, 'df_%s: got %s, the statement gives %s on %s' % (g, enc_out(res) if isinstance(res, pd.Series) else res, exp, [t.day for t in idx]))
